@@ -10,6 +10,7 @@ pub trait StatsExt {
 
 impl StatsExt for Stats {
     fn compiled(&mut self, o: &Outcome) {
+        self.fold(o.history_digest_stable());
         self.c.inc("compilations");
         self.c.add("loader_events", o.history.len() as u64);
         self.c.add("finds", o.finds);
